@@ -103,21 +103,31 @@ def gen_cases(ctx):
     cases.append(dict(name=name + "/eager", opt=opt, cfg=cfg, tree=small, T=Te, exec="eager",
                       crash_points=[0, 1, 2, Te] if quick else None, interleave=not quick))
   if not quick:
-    # random configurations from the C07 generator that the repaired model accepts
-    rows, _ = c07.gen_ds(ctx, 60, 0)
+    # random Distributed Shampoo configurations from the C07 generator which the C07 model of
+    # TODAY's code (as_is) predicts to run (open C07 defects would make the others die in update;
+    # C07 reports those)
+    rows, _ = c07.gen_ds(ctx, 900, 0)
+    cand = []
     for why, row, tr in rows:
-      if why != "pairwise":
-        continue
       cfg, x64 = c07.row_to_case(row)
-      if x64 or not c07.tree_leaves(tr) or tr["k"] == "leaf":
+      if why != "pairwise" or x64 or not c07.tree_leaves(tr) or tr["k"] == "leaf":
         continue
-      if cfg.get("lobpcg_topk_precondition") or cfg.get("compression_rank"):
-        continue          # open C07 findings (N1/N2) make these die in update; C07 reports them
-      if cfg.get("mode") == "sharded" and (cfg.get("reuse_preconditioner") or
-                                           cfg.get("best_effort_memory_usage_reduction")):
+      cand.append((cfg, tr))
+    cand = cand[:400]
+    hdr = ("From Coq Require Import QArith.\nFrom Precond Require Import Base.PyLib C07.Layout "
+           "C07.Model C07.ModelTF C07.Check.\nOpen Scope Z_scope.\n")
+    bugs = c07.coq_bugs(set(c07.BUG_FLAGS))
+    terms = ["code (obind (ds_init %s %s %s) (fun l => ds_update %s %s %s l))" % (
+        bugs, c07.coq_dscfg(cfg), c07.coq_layout(c07.tree_sig(tr)),
+        bugs, c07.coq_dscfg(cfg), c07.coq_layout(c07.tree_sig(tr))) for cfg, tr in cand]
+    vals = ctx.coq_eval("select", hdr, terms, per_shard=30)
+    nrand = 0
+    for (cfg, tr), v in zip(cand, vals):
+      if v.replace(" ", "") != "(0,[])" or nrand >= 48:
         continue
-      if cfg.get("skip_preconditioning_rank_lt") == 0:
-        continue
+      if cfg.get("frequent_directions") and cfg.get("average_grad"):
+        continue          # D8 territory (layout change, reported by the dedicated case)
+      nrand += 1
       cases.append(dict(name="ds-random-%d" % len(cases), opt="ds", cfg=cfg, tree=tr, T=6, exec="jit",
                         crash_points=[0, 1, 3, 6]))
   for i, c in enumerate(cases):
